@@ -56,7 +56,7 @@ class CallMixin:
             if self.spec and nm in st.ghost and isinstance(st.ghost[nm], z3.FuncDeclRef):
                 args = [self.eval(a, st) for a in node.args]
                 fd = st.ghost[nm]
-                r = fd(*[to_int(a) for a in args])
+                r = fd(*[z3.ToInt(a.t) if a.kind == "real" else to_int(a) for a in args])
                 return [(st, Sc("bool" if fd.range() == BOOL else ("real" if fd.range() == REAL else "int"), r))]
             b = getattr(self, "b_" + nm, None)
             if b is not None:
@@ -230,6 +230,17 @@ class CallMixin:
         gprefix = short if n_call == 1 else "%s%d" % (short, n_call)
         try:
             st.vars = {k: (v, True) for k, v in params.items()}
+            # ghost parameters of the callee are universally quantified: instantiated with the caller's ghost value of the same
+            # name where there is one (the caller's proof is about that value), with a fresh value otherwise
+            for gn, gty in (c.get("ghost_params") or {}).items():
+                if gty.startswith("fn("):
+                    if gn not in st.ghost:
+                        dom, rng = gty[3:].split(")->")
+                        st.ghost[gn] = fresh_func("g_" + gn, *([SORTS[d.strip()] for d in dom.split(",")] + [SORTS[rng.strip()]]))
+                elif gn in caller_vars:
+                    st.vars[gn] = caller_vars[gn]
+                else:
+                    st.vars[gn] = (self.make_value(gty, st, "g_" + gn), True)
             for i, r in enumerate(c.get("requires", [])):
                 self.oblige(st, "pre", node, self.spec_bool(r, st), "precondition #%d of %s: %s" % (i + 1, short, r))
             old = st.snapshot()
@@ -255,6 +266,7 @@ class CallMixin:
                     res = self.spec_val(target, s2)
                 else:
                     res = self.make_value(c.get("returns", "none"), s2, "ret_" + short)
+                    res = self.share_result(res, c, s2)
                 s2.ghost = dict(s2.ghost)
                 saved_res, saved_old = s2.ghost.get("result"), s2.old
                 s2.ghost["result"] = res
@@ -264,7 +276,12 @@ class CallMixin:
                     s2.ghost[gname] = fd
                     s2.ghost["%s_%s" % (gprefix, gname)] = fd
                 for e in c.get("ensures", []):
-                    s2.assume(self.spec_bool(e, s2, assume=True))
+                    et = self.spec_bool(e, s2, assume=True)
+                    if z3.is_false(z3.simplify(et)):
+                        # assuming it would make everything after the call vacuously provable
+                        raise VCError("postcondition of %s is literally false at the call on line %d: %s" % (short, node.lineno, e))
+                    s2.assume(et)
+                self.canary(s2, node, "state after call of %s" % short, full=False)
                 for gname in (c.get("ghost_out") or {}):
                     s2.ghost.pop(gname, None)
                 s2.old = saved_old
@@ -280,6 +297,41 @@ class CallMixin:
             return outs
         finally:
             st.vars = caller_vars
+
+    def share_result(self, res, c, st):
+        """A postcondition conjunct same(result<path>, <expression over the parameters>) says that (a component of) the returned
+        value IS an object that was passed in: build the result that way instead of from fresh objects."""
+        def conjuncts(n):
+            if isinstance(n, ast.BoolOp) and isinstance(n.op, ast.And):
+                for v in n.values:
+                    yield from conjuncts(v)
+            else:
+                yield n
+        for e in c.get("ensures", []):
+            for cj in conjuncts(self.parse_spec(e)):
+                if not (isinstance(cj, ast.Call) and isinstance(cj.func, ast.Name) and cj.func.id == "same" and len(cj.args) == 2):
+                    continue
+                a, b = cj.args
+                path = []
+                node = a
+                while isinstance(node, (ast.Attribute, ast.Subscript)):
+                    path.append(node.attr if isinstance(node, ast.Attribute) else node.slice.value if isinstance(node.slice, ast.Constant) else None)
+                    node = node.value
+                if not (isinstance(node, ast.Name) and node.id == "result") or None in path:
+                    continue
+                target = self.spec_val(ast.unparse(b), st)
+                res = self._replace_at(res, list(reversed(path)), target)
+        return res
+
+    def _replace_at(self, v, path, target):
+        if not path:
+            return target
+        if not isinstance(v, Tup):
+            raise VCError("same(result...) path into a non-tuple result")
+        idx = v.names.index(path[0]) if isinstance(path[0], str) else path[0]
+        items = list(v.items)
+        items[idx] = self._replace_at(items[idx], path[1:], target)
+        return Tup(items, v.names, v.tname)
 
     def call_mutates(self, call, st):
         """Argument *names* that a call may mutate (for loop havoc)."""
